@@ -1,6 +1,7 @@
 import SSV.Model.Relay
 import SSV.Proofs.RelayStep
 import SSV.Proofs.RelayReply
+import SSV.Proofs.RelayProgress
 /-
 C11 — property theorems (model: SSV/Model/Relay.lean; invariants: SSV/Proofs/Relay.lean).
 
@@ -123,6 +124,21 @@ theorem ss2022_follows_address (cfg : Config) (hif : cfg.insertFirst = false) (h
 
 example : (run ⟨4, false, true, false, none, fun s => s⟩ State.init [.recv 9 1 (some ⟨.ip 5 53, 100⟩)]).table 9 = some 0 := by decide
 
+/-- **Delivery (partial).** The statement's "each datagram … leaves the relay towards T", as far as a safety model
+can say it: the uplink is never stuck — the packet at the head of a started session's queue is put on the wire by
+that session's own steps (plus one resolver answer if its domain is not cached), and by `no_cross_session_send`
+towards the right destination. MISSING for the full statement: fairness of the Go scheduler and the kernel,
+termination of the resolver, datagrams dropped BY DESIGN when the bounded send queue is full (`enqueue`), and
+sessions closed before their queue drained (life-cycle: C12). These are sampled by the loopback engine only. -/
+theorem enqueued_head_leaves_partial (cfg : Config) (st : State) (sid : Nat) (s : Sess) (q : Pkt) (rest : List Pkt)
+    (hs : st.sess sid = some s) (hst : s.started = true) (hpc : s.pc = .idle) (hq : s.queue = q :: rest) (ip : IP) :
+    ∃ acts : List Act, acts ⊆ [.take sid, .resolved sid (some ip), .storeIP sid, .readSend sid] ∧
+      ∃ a p, (run cfg st acts).sent = st.sent ++ [⟨sid, q, a, p⟩] :=
+  Relay.head_leaves cfg st sid s q rest hs hst hpc hq ip
+
+example : ∃ (st : State) (s : Sess), st.sess 0 = some s ∧ s.started = true ∧ s.pc = .idle ∧ s.queue = [⟨.dom 7 53, 100⟩] :=
+  ⟨run ⟨4, true, true, false, none, fun s => s⟩ State.init [.recv 1 1 (some ⟨.dom 7 53, 100⟩), .initOk 0], _, rfl, rfl, rfl, rfl⟩
+
 /-- address-keyed relays: a datagram from another address never reaches this session (its key IS its address) -/
 theorem nat_keyed_by_address (cfg : Config) (hb : cfg.byAddr = true) (st : State) (key : Key) (src : Addr)
     (r : Option Pkt) (h : key ≠ src) : step cfg st (.recv key src r) = st := by
@@ -140,4 +156,5 @@ end SSV.C11
 #print axioms SSV.C11.replies_to_owner
 #print axioms SSV.C11.replies_to_owner_code
 #print axioms SSV.C11.ss2022_follows_address
+#print axioms SSV.C11.enqueued_head_leaves_partial
 #print axioms SSV.C11.nat_keyed_by_address
